@@ -187,6 +187,57 @@ pub fn run(path: &str, out: &mut dyn Write) {
                     }
                 }
             }
+            Some("train") => {
+                // train <id> GEN <image> <user|none>   /   train <id> REENC <image>
+                if t.len() >= 5 && t[2] == "GEN" {
+                    if let Some(img) = unhex(t[3]) {
+                        let user = if t[4] == "none" { None } else { unhex(t[4]) };
+                        let field = |k: &str| -> Option<String> {
+                            flags.split(' ').find_map(|x| x.strip_prefix(k).map(|v| v.to_string()))
+                        };
+                        let lib = crate::trainer::observe_gen(&img, user.as_deref());
+                        let (obs, g) = if t[1].ends_with(".cli") && std::env::var("VERIF_CLI_BIN").is_ok() {
+                            crate::cli::dictgen_gen(&img, user.as_deref())
+                        } else {
+                            crate::trainer::observe_gen(&img, user.as_deref())
+                        };
+                        // predicates recomputed on what the current tree produces (RT: against a second, library-side
+                        // generation from the same image; the in-memory side of the original case cannot be replayed)
+                        let fl = match field("CHARDEF=").and_then(|h| unhex(&h)).and_then(|b| String::from_utf8(b).ok()) {
+                            Some(cd) => {
+                                let k: usize = field("K=").and_then(|x| x.parse().ok()).unwrap_or(0);
+                                let slash = field("SLASH=").map_or(false, |x| x == "1");
+                                let rt = lib.0 == obs;
+                                let mut f = format!(" ## {}", crate::trainer::flags_core(&cd, k, slash, rt, &g));
+                                if let Some(sy) = field("SYNTH=") {
+                                    f.push_str(&format!(" SYNTH={sy}"));
+                                }
+                                f
+                            }
+                            None => flags.clone(),
+                        };
+                        writeln!(out, "{input} IMPL {obs}{fl}").unwrap();
+                    }
+                }
+            }
+            Some("conn") => {
+                // conn <id> KIND <k> <right> <left> <cost>
+                if t.len() >= 7 && t[2] == "KIND" {
+                    if let (Some(r), Some(l), Some(c)) = (unhex(t[4]), unhex(t[5]), unhex(t[6])) {
+                        let kind: u8 = t[3].parse().unwrap_or(1);
+                        writeln!(out, "{input} IMPL {}{flags}", crate::conn::conn_obs(kind, &r, &l, &c)).unwrap();
+                    }
+                }
+            }
+            Some("corpus") => {
+                if t.len() >= 4 && t[2] == "parse" {
+                    if let Some(b) = unhex(t[3]) {
+                        let (o, rt) = crate::corpus::obs(&b);
+                        let kind = flags.split("KIND=").nth(1).map(|k| format!(" KIND={}", k.split(' ').next().unwrap())).unwrap_or_default();
+                        writeln!(out, "{input} IMPL {o} ## RT={rt}{kind}").unwrap();
+                    }
+                }
+            }
             _ => {}
         }
     }
